@@ -1,6 +1,5 @@
 //! C16 — `cfavml_utils::aligned_buffer::AlignedBuffer`.
 
-
 use cfavml_utils::aligned_buffer::AlignedBuffer;
 
 use crate::kern::{hash_str, mix};
@@ -43,7 +42,16 @@ impl BElem for [u64; 8] {
     const NAME: &'static str = "[u64;8]";
     fn pat(i: usize, salt: u64) -> Self {
         let b = u64::pat(i, salt);
-        [b, !b, b.rotate_left(17), i as u64 + 1, b ^ 0x55, b.rotate_left(31), !b.rotate_left(3), 7]
+        [
+            b,
+            !b,
+            b.rotate_left(17),
+            i as u64 + 1,
+            b ^ 0x55,
+            b.rotate_left(31),
+            !b.rotate_left(3),
+            7,
+        ]
     }
 }
 
@@ -57,7 +65,10 @@ pub struct BCase {
 
 impl Case for BCase {
     fn routine(&self) -> String {
-        format!("cfavml_utils::aligned_buffer::AlignedBuffer::<{}>::zeroed", self.ty)
+        format!(
+            "cfavml_utils::aligned_buffer::AlignedBuffer::<{}>::zeroed",
+            self.ty
+        )
     }
     fn inflight(&self, w: &mut dyn std::fmt::Write) {
         let _ = write!(w, "AlignedBuffer::<{}>::zeroed({}) + protocol", self.ty, self.len);
@@ -96,7 +107,13 @@ impl Case for BCase {
 }
 
 fn bad(class: &'static str, e: String, a: String) -> Verdict {
-    Some(Fail { kind: "impl_vs_oracle", class, expected: e, actual: a, note: String::new() })
+    Some(Fail {
+        kind: "impl_vs_oracle",
+        class,
+        expected: e,
+        actual: a,
+        note: String::new(),
+    })
 }
 
 fn protocol<X: BElem>(len: usize) -> Verdict {
@@ -107,81 +124,141 @@ fn protocol<X: BElem>(len: usize) -> Verdict {
             return bad("len", format!("len() == {len}"), format!("{}", buf.len()));
         }
         if buf.as_slice().len() != len {
-            return bad("len", format!("as_slice().len() == {len}"), format!("{}", buf.as_slice().len()));
+            return bad(
+                "len",
+                format!("as_slice().len() == {len}"),
+                format!("{}", buf.as_slice().len()),
+            );
         }
         let p = buf.as_slice().as_ptr() as usize;
         if p % 64 != 0 {
-            return bad("align", "as_slice().as_ptr() % 64 == 0".into(), format!("address {p:#x} (mod 64 = {})", p % 64));
+            return bad(
+                "align",
+                "as_slice().as_ptr() % 64 == 0".into(),
+                format!("address {p:#x} (mod 64 = {})", p % 64),
+            );
         }
         let bytes = unsafe { std::slice::from_raw_parts(p as *const u8, len * size) };
         if let Some(i) = bytes.iter().position(|b| *b != 0) {
-            return bad("zero", "all bytes zero".into(), format!("byte {i} = {:#04x}", bytes[i]));
+            return bad(
+                "zero",
+                "all bytes zero".into(),
+                format!("byte {i} = {:#04x}", bytes[i]),
+            );
         }
         let alloc = buf.allocated_size();
         if alloc < len {
             return bad("alloc", format!("allocated_size() >= {len}"), format!("{alloc}"));
         }
         if (alloc * size) % 64 != 0 {
-            return bad("alloc", "allocated_size()*size_of::<T>() % 64 == 0".into(), format!("{alloc} * {size}"));
+            return bad(
+                "alloc",
+                "allocated_size()*size_of::<T>() % 64 == 0".into(),
+                format!("{alloc} * {size}"),
+            );
         }
         if buf.as_mut_ptr() as usize != p {
-            return bad("ptr", "as_mut_ptr() == as_slice().as_ptr()".into(), "different pointers".into());
+            return bad(
+                "ptr",
+                "as_mut_ptr() == as_slice().as_ptr()".into(),
+                "different pointers".into(),
+            );
         }
         // write via as_mut_slice, read via as_slice and Deref
         {
             let s = buf.as_mut_slice();
             if s.len() != len {
-                return bad("len", format!("as_mut_slice().len() == {len}"), format!("{}", s.len()));
+                return bad(
+                    "len",
+                    format!("as_mut_slice().len() == {len}"),
+                    format!("{}", s.len()),
+                );
             }
             for (i, x) in s.iter_mut().enumerate() {
                 *x = X::pat(i, 1);
             }
         }
         if let Some(i) = (0..len).find(|&i| buf.as_slice()[i] != X::pat(i, 1)) {
-            return bad("readback", format!("as_slice()[{i}] == written value"), format!("{:?}", buf.as_slice()[i]));
+            return bad(
+                "readback",
+                format!("as_slice()[{i}] == written value"),
+                format!("{:?}", buf.as_slice()[i]),
+            );
         }
         {
             let d: &[X] = &buf;
             if d.len() != len || (0..len).any(|i| d[i] != X::pat(i, 1)) {
-                return bad("readback", "Deref view equals written values".into(), "differs".into());
+                return bad(
+                    "readback",
+                    "Deref view equals written values".into(),
+                    "differs".into(),
+                );
             }
         }
         // clone is deep
         let mut cl = buf.clone();
         let cp = cl.as_slice().as_ptr() as usize;
         if cl.len() != len || cl.allocated_size() != alloc {
-            return bad("clone", format!("clone len {len}, allocated {alloc}"), format!("{} / {}", cl.len(), cl.allocated_size()));
+            return bad(
+                "clone",
+                format!("clone len {len}, allocated {alloc}"),
+                format!("{} / {}", cl.len(), cl.allocated_size()),
+            );
         }
         if cp % 64 != 0 {
-            return bad("clone", "clone storage 64-byte aligned".into(), format!("address {cp:#x}"));
+            return bad(
+                "clone",
+                "clone storage 64-byte aligned".into(),
+                format!("address {cp:#x}"),
+            );
         }
         if cp == p {
             return bad("clone", "clone has its own storage".into(), "same pointer".into());
         }
         if let Some(i) = (0..len).find(|&i| cl.as_slice()[i] != X::pat(i, 1)) {
-            return bad("clone", format!("clone[{i}] == original"), format!("{:?}", cl.as_slice()[i]));
+            return bad(
+                "clone",
+                format!("clone[{i}] == original"),
+                format!("{:?}", cl.as_slice()[i]),
+            );
         }
         for (i, x) in cl.as_mut_slice().iter_mut().enumerate() {
             *x = X::pat(i, 2);
         }
         if let Some(i) = (0..len).find(|&i| buf.as_slice()[i] != X::pat(i, 1)) {
-            return bad("clone", format!("original[{i}] unchanged after mutating the clone"), format!("{:?}", buf.as_slice()[i]));
+            return bad(
+                "clone",
+                format!("original[{i}] unchanged after mutating the clone"),
+                format!("{:?}", buf.as_slice()[i]),
+            );
         }
         // copy_from_slice on the original, clone unchanged
         let fresh: Vec<X> = (0..len).map(|i| X::pat(i, 3)).collect();
         buf.copy_from_slice(&fresh);
         if let Some(i) = (0..len).find(|&i| buf.as_slice()[i] != X::pat(i, 3)) {
-            return bad("readback", format!("copy_from_slice then as_slice()[{i}]"), format!("{:?}", buf.as_slice()[i]));
+            return bad(
+                "readback",
+                format!("copy_from_slice then as_slice()[{i}]"),
+                format!("{:?}", buf.as_slice()[i]),
+            );
         }
         if let Some(i) = (0..len).find(|&i| cl.as_slice()[i] != X::pat(i, 2)) {
-            return bad("clone", format!("clone[{i}] unchanged after mutating the original"), format!("{:?}", cl.as_slice()[i]));
+            return bad(
+                "clone",
+                format!("clone[{i}] unchanged after mutating the original"),
+                format!("{:?}", cl.as_slice()[i]),
+            );
         }
         // the slack up to allocated_size must be addressable storage owned by the buffer:
         // a second zeroed buffer must still be all zero (no aliasing with the first)
         let other: AlignedBuffer<X> = unsafe { AlignedBuffer::<X>::zeroed(len) };
         let ob = unsafe { std::slice::from_raw_parts(other.as_slice().as_ptr() as *const u8, len * size) };
         if ob.iter().any(|b| *b != 0) {
-            return bad("zero", "a fresh buffer is zeroed while others are live".into(), "non-zero byte".into());
+            return bad(
+                "zero",
+                "a fresh buffer is zeroed while others are live".into(),
+                "non-zero byte".into(),
+            );
         }
         None
     });
@@ -214,7 +291,12 @@ fn job<X: BElem>(ctx: &mut Ctx, part: usize, parts: usize) {
         if i % 128 == 0 && ctx.out_of_time() {
             break;
         }
-        let c = BCase { ty: X::NAME, size, len, run: protocol::<X> };
+        let c = BCase {
+            ty: X::NAME,
+            size,
+            len,
+            run: protocol::<X>,
+        };
         ctx.run_case(&c, len > 0, &mut |c| (c.run)(c.len));
         n += 1;
         if ctx.p.samples.is_empty() && len == 5 {
